@@ -353,11 +353,47 @@ def check_custom(t, m, names, nodes, known, ctx):
                         start=0, stop=[], filtered_out=[], maxlevel=None, names=names))
 
 
+class _Abort(Exception):
+    pass
+
+
 def check_histories(t, m, names, known, ctx):
     """Short histories on ONE UniqueDotExporter / DotExporter object."""
     import anytree
 
     exps = exporters()
+    # H0: an export aborted by the user's nodeattrfunc raising at its k-th call (every k), then a complete export of the
+    # same exporter object: all lines right, identifiers distinct
+    nodes = tree.build(m, tree.default_factory("node"), "topdown", names=names)
+    for k in range(m.n):
+        state = {"n": 0, "k": k}
+
+        def flaky(nd):
+            i = state["n"]
+            state["n"] += 1
+            if state["k"] is not None and i == state["k"]:
+                raise _Abort()
+            return None
+        e = mk(exps["unique"], nodes[0], nodeattrfunc=flaky)
+        try:
+            list(e)
+            aborted = False
+        except _Abort:
+            aborted = True
+        state["k"], state["n"] = None, 0
+        lines = list(e)
+        t.c["history_runs"] += 1
+        p = parse(lines, "    ", 0)
+        ok = aborted and not isinstance(p, str) and len(p["nodes"]) == m.n and len({i for i, _ in p["nodes"]}) == m.n
+        if ok:
+            ids = [i for i, _ in p["nodes"]]
+            exp_edges = sorted((ids[m.par[v]], ids[v]) for v in range(1, m.n))   # pre-order index == declaration order
+            ok = sorted((a, b) for a, _, b, _ in p["edges"]) == exp_edges
+        if not ok:
+            t.violation("C12: export after an export that the user's nodeattrfunc aborted at call #%d is wrong" % k,
+                        dict(ctx, engine="E2", module=MOD, exporter="unique", history="aborted-export", names=names, observed=lines,
+                             start=0, stop=[], filtered_out=[], maxlevel=None))
+            break
     for which in ("unique", "dot"):
         nodes = tree.build(m, tree.default_factory("node"), "topdown", names=names)
         e = mk(exps[which], nodes[0])
